@@ -106,21 +106,40 @@ class Matcher:
             raise C.Unsupported("regex flags IGNORECASE/MULTILINE")
         self.tree = sp.parse(rx.pattern, rx.flags)
         self.steps = 0
+        self.atom_flags = {}
+        self.annotate(self.tree, self.flags)
 
-    def test(self, op, av, pos):
+    def annotate(self, items, flags):
+        """effective flags of every single-character atom (scoped inline flags such as (?s:...))"""
+        for item in items:
+            op, av = item
+            o = str(op)
+            if o in ("LITERAL", "NOT_LITERAL", "IN", "ANY"):
+                self.atom_flags[id(item)] = flags
+            elif o == "SUBPATTERN":
+                gid, add_flags, del_flags, sub = av
+                self.annotate(sub, (flags | add_flags) & ~del_flags)
+            elif o == "BRANCH":
+                for alt in av[1]:
+                    self.annotate(alt, flags)
+            elif o in ("MAX_REPEAT", "MIN_REPEAT"):
+                self.annotate(av[2], flags)
+
+    def test(self, op, av, pos, flags=None):
         if pos >= self.n:
             return False
+        flags = self.flags if flags is None else flags
         c = self.chars[pos]
         if not isinstance(c, int):
             dom = self.it.domain_ids.get(c.get_id())
             if dom is not None:
                 # finite registered domain: decide the class test by evaluation when it is uniform over the domain
-                res = [bool(atom_cond(op, av, d, self.flags)) for d in dom]
+                res = [bool(atom_cond(op, av, d, flags)) for d in dom]
                 if all(res):
                     return True
                 if not any(res):
                     return False
-        cond = atom_cond(op, av, c, self.flags)
+        cond = atom_cond(op, av, c, flags)
         if isinstance(cond, bool):
             return cond
         return self.it.branch(cond)
@@ -140,7 +159,7 @@ class Matcher:
         o = str(op)
         rest = lambda p, g: self.m(items, i + 1, p, g, k)
         if o in ("LITERAL", "NOT_LITERAL", "IN", "ANY"):
-            return rest(pos + 1, groups) if self.test(op, av, pos) else None
+            return rest(pos + 1, groups) if self.test(op, av, pos, self.atom_flags.get(id(items[i]))) else None
         if o == "AT":
             a = str(av)
             if a in ("AT_BEGINNING", "AT_BEGINNING_STRING"):
@@ -159,8 +178,8 @@ class Matcher:
             raise C.Unsupported(f"regex anchor {a}")
         if o == "SUBPATTERN":
             gid, add_flags, del_flags, sub = av
-            if add_flags or del_flags:
-                raise C.Unsupported("regex inline flags")
+            if (add_flags | del_flags) & ~re.DOTALL:
+                raise C.Unsupported("regex inline flags other than (?s:...)")
 
             def after(p, g):
                 if gid is not None:
